@@ -16,13 +16,15 @@ TECHNIQUE = ("deterministic simulation harness (E-sess) with error-path "
              "reference model follows accepted and rejected writes")
 RULE = ("case = history of 1..3 sessions over a structure whose attributes "
         "include declarations the format supports and ones it does not (fb: "
-        "bytes/str; tfrec: float64; variable-size bytes/str), with bad writes "
+        "bytes/str; tfrec: float64, int16, uint16/32/64; variable-size "
+        "bytes/str), with bad writes "
         "{wrong shape, wrong rank, same size other rank, unsafe dtype, foreign "
         "dtype, wrong container, missing attribute, surplus attribute} on the "
         "first / middle / last attribute at seeded positions (first of a "
         "shard, middle, last). Oracle: a rejected write leaves no trace "
         "(all other examples read back byte-exact, counts exclude it, C04 "
-        "exactness holds); an accepted write - good or odd - never makes the "
+        "exactness holds, every recorded shard label is the metadata of an "
+        "accepted write stored in that shard); an accepted write - good or odd - never makes the "
         "session fail later, nor the dataset unopenable, check() fail or "
         "iteration raise. Non-trivial = at least one bad write or unsupported "
         "declaration; distinct = event digest.")
